@@ -565,3 +565,5 @@ FINDINGS: dict[str, Any] = {
     "consumer-formula-without-grid-meter-counts-devices-below-mixed-meters": _f_consumer_no_grid_meter,
     "formula-reads-chp-without-data-when-its-meter-is-the-grid-meter": _f_chp_under_grid_meter,
 }
+
+LEVEL_NOTE += " Rounds 13-14: graph object refreshed from another topology; the pool's own power formula through a real reference store."
